@@ -8,7 +8,8 @@ AREA = M.AREA
 LEAN_PROPS = "Litep2pVerif.Props.C05"
 THEOREMS = ["no_dup_outcome", "dial_ledger", "quiescent_dialable", "addr_total", "dial_address_parses_for_tcp",
             "dial_address_peers_agree", "transport_dial_total_on_accepted_shapes", "protocol_dial_ledger", "protocol_dial_joins",
-            "protocol_notified_despite_full_channel", "facade_reports_every_outcome"]
+            "protocol_notified_despite_full_channel", "facade_reports_every_outcome",
+            "poll_next_reports_every_ready_result", "executor_collects_every_due_event", "queued_dial_failure_is_due"]
 MANIFEST = {
     "text": "Lean 4 theorems about an executable operational model of the connection manager with a ghost ledger of accepted "
             "dial attempts: no_dup_outcome, dial_ledger (outcome + inflight = 1 for every attempt in every reachable state), "
@@ -409,6 +410,29 @@ def protocol_ledger(pr, g, t, obs, prev, busy_before, nled, i, v):
 
 def matches_known(k, v):
     return False
+
+
+# ---------------------------------------------------------------- the real TCP transport's event stream (engine: extra_cases)
+# The manager's ledger theorems assume one terminal event per obligation from the transport. For the TCP transport that
+# rests on `TcpTransport::poll_next` (a dial's outcome is a ready result queued next to results that yield no event): the
+# c01 area's `pn` op fills the real transport's queues and polls it with a counting waker (checks/tcp_poll.py,
+# Model/Tcp/Poll.lean); judged here: every queued outcome is reported exactly once without an outside wake-up.
+from . import tcp_poll as _tcp_poll  # noqa: E402
+
+
+def extra_cases(rng, tier):
+    yield "C01", _tcp_poll.gen_cases(rng, tier)
+
+
+def oracle_extra(xpid, case, out):
+    if xpid != "C01":
+        return []
+    return [dict(v, msg="(real TcpTransport, c01 area) " + v["msg"]) for v in _tcp_poll.oracle(case, out)]
+
+
+def stats_extra(xpid, case, out, acc):
+    if xpid == "C01":
+        _tcp_poll.stats(case, out, acc)
 
 
 # ---------------------------------------------------------------- real nodes through the public API (engine: extra_cases)
